@@ -214,7 +214,13 @@ pub fn gate(point: &str, fields: &[(&str, &dyn VJson)]) {
         return;
     }
     let mut b = [0u8; 1];
-    let got = File::open(&ack).and_then(|mut f| f.read(&mut b));
+    // Signals (SIGCHLD, the jobserver's SIGALRM) may interrupt the blocking open or read.
+    let got = loop {
+        match File::open(&ack).and_then(|mut f| f.read(&mut b)) {
+            Err(ref e) if e.kind() == std::io::ErrorKind::Interrupted => continue,
+            r => break r,
+        }
+    };
     if let Ok(1) = got {
         if b[0] == b'd' {
             unsafe {
